@@ -103,7 +103,7 @@ pub struct Exec {
 }
 
 /// No correct operation sequence of the sizes generated here needs more hooked steps per thread.
-pub const STEP_LIMIT: usize = 600;
+pub const STEP_LIMIT: usize = 300;
 pub const LIVELOCK_MARKER: &str = "harness step budget exceeded";
 
 thread_local! { static TID: std::cell::Cell<usize> = const { std::cell::Cell::new(usize::MAX) }; }
@@ -153,6 +153,10 @@ impl State {
 impl Exec {
     /// Blocks until this thread is given the baton for one more step.
     fn acquire_turn(&self, tid: usize) -> std::sync::MutexGuard<'_, State> {
+        self.acquire_turn_opt(tid, true)
+    }
+
+    fn acquire_turn_opt(&self, tid: usize, enforce_budget: bool) -> std::sync::MutexGuard<'_, State> {
         let mut st = self.st.lock().unwrap();
         if st.threads[tid].status != Status::Finished {
             st.threads[tid].status = Status::Ready;
@@ -170,7 +174,7 @@ impl Exec {
         }
         st.threads[tid].holding = true;
         st.threads[tid].steps += 1;
-        if st.threads[tid].steps > STEP_LIMIT {
+        if enforce_budget && st.threads[tid].steps > STEP_LIMIT {
             // A thread that spins (a reader that never validates, a retry loop that
             // never ends): stop it by unwinding out of the operation.
             st.livelock = true;
@@ -427,11 +431,33 @@ pub fn run(plan: Plan, target: Target) -> Outcome {
                 st.threads[tid].status = Status::Ready;
                 exec.cv.notify_all();
             }
+            // Whatever happens to this thread (including an unwinding panic), it must
+            // end up Finished and give the baton away, or the controller waits forever.
+            struct Finish {
+                exec: Arc<Exec>,
+                tid: usize,
+            }
+            impl Drop for Finish {
+                fn drop(&mut self) {
+                    set_thread_hook(None);
+                    let mut st = match self.exec.st.lock() {
+                        Ok(g) => g,
+                        Err(p) => p.into_inner(),
+                    };
+                    st.threads[self.tid].status = Status::Finished;
+                    if st.threads[self.tid].holding {
+                        st.threads[self.tid].holding = false;
+                        st.choose_next();
+                    }
+                    self.exec.cv.notify_all();
+                }
+            }
+            let finish = Finish { exec: exec.clone(), tid };
             let mut out = vec![];
             for (i, op) in prog.iter().enumerate() {
                 {
                     // Wait for a turn before the operation begins, so that "begin" is a scheduled point.
-                    let mut st = exec.acquire_turn(tid);
+                    let mut st = exec.acquire_turn_opt(tid, false);
                     st.threads[tid].steps -= 1; // the begin marker is not a step of the operation
                     st.threads[tid].current_op = i;
                     let (seq_view, seq_latest) = match st.seq_addr {
@@ -463,14 +489,7 @@ pub fn run(plan: Plan, target: Target) -> Outcome {
                 }
                 out.push(r);
             }
-            set_thread_hook(None);
-            let mut st = exec.st.lock().unwrap();
-            st.threads[tid].status = Status::Finished;
-            if st.threads[tid].holding {
-                st.threads[tid].holding = false;
-                st.choose_next();
-            }
-            exec.cv.notify_all();
+            drop(finish);
             out
         }));
     }
